@@ -152,6 +152,21 @@ def check_config(cfg, numeric: dict, same, tag_eq, symbolic: bool):
                 problems.append(("follow-up-differs", f"part {path}: follow-up on rows {sub} gives {lf}/{cf.shape}"))
             else:
                 claims.append((f"part {path}: follow-up on rows {sub} replays the recorded encoding", _all(same, co[:2], cf)))
+        # ... and each part's own spec replays it on a frame that declares its categories afresh (only the observed levels)
+        df3 = df2.copy()
+        df3["A"] = pandas.Categorical(list(df3["A"]))
+        for path, part in leaves(mm):
+            lo, co = cells_of(part)
+            try:
+                alone = part.model_spec.get_model_matrix(df3, context=ctx2)
+            except Exception as e:
+                problems.append(("part-follow-up-raises", f"part {path}: its own spec on rows {sub} with re-declared categories raised {type(e).__name__}: {str(e)[:80]}"))
+                continue
+            la, ca = cells_of(alone)
+            if la != lo or ca.shape != (2, len(lo)):
+                problems.append(("part-follow-up-differs", f"part {path}: its own spec on rows {sub} gives {la}/{ca.shape}"))
+            else:
+                claims.append((f"part {path}: its own spec replays rows {sub} whatever categories the new frame declares", _all(same, co[:2], ca)))
     return problems, claims
 
 
